@@ -125,6 +125,34 @@ class _InvertIf(ast.NodeTransformer):
         return n
 
 
+class _Noise(ast.NodeTransformer):
+    """insert a no-op expression statement before every statement of every function body"""
+
+    def _pad(self, body):
+        out = []
+        for st in body:
+            if not (isinstance(st, ast.Expr) and isinstance(st.value, ast.Constant)):
+                out.append(ast.Expr(value=ast.Constant(value=Ellipsis)))
+            out.append(st)
+        return out
+
+    def visit_FunctionDef(self, n):
+        self.generic_visit(n)
+        doc = n.body[:1] if n.body and isinstance(n.body[0], ast.Expr) and isinstance(n.body[0].value, ast.Constant) \
+            and isinstance(n.body[0].value.value, str) else []
+        n.body = doc + self._pad(n.body[len(doc):])
+        return n
+
+    def generic_visit(self, n):
+        super().generic_visit(n)
+        if isinstance(n, (ast.If, ast.For, ast.While, ast.With, ast.Try)):
+            for f in ('body', 'orelse', 'finalbody'):
+                b = getattr(n, f, None)
+                if b and not (f == 'orelse' and len(b) == 1 and isinstance(b[0], ast.If)):
+                    setattr(n, f, self._pad(b))
+        return n
+
+
 def transform(path: Path, kind: str):
     src = path.read_text()
     tree = ast.parse(src)
@@ -134,6 +162,8 @@ def transform(path: Path, kind: str):
         tree = _Aug().visit(tree)
     elif kind == 'flip-compare':
         tree = _FlipCmp().visit(tree)
+    elif kind == 'noise':
+        tree = _Noise().visit(tree)
     elif kind == 'invert-if':
         tree = _InvertIf().visit(tree)
     ast.fix_missing_locations(tree)
